@@ -105,6 +105,7 @@ class C06(Prop):
             'route': st.sampled_from(['triggers', 'response']),
             'mode': st.sampled_from(['locals', 'watch', 'locals', 'return', 'exception', 'watch', 'locals']),
             'frame_type': st.sampled_from(['single_frame', 'all_frame']),
+            'self_local': st.sampled_from([None, None, None, 0, 1]),
             'frame_types': st.lists(st.sampled_from(['single_frame', 'all_frame', 'no_frame', 'single_frame']),
                                     min_size=4, max_size=4),
         })
@@ -132,6 +133,10 @@ class C06(Prop):
         if mode in ('locals', 'watch'):
             for j, i in enumerate(picked):
                 hold['h%d' % j] = vals[i]
+            if recipe.get('self_local') is not None and mode == 'locals':
+                # a local that happens to be called `self` (the collector reads the class of `self` for the frame)
+                hold['self'] = vals[picked[recipe['self_local'] % len(picked)]]
+                out.cls('hostile_or_odd_self')
         else:
             hold['h0'] = vals[picked[0]] if mode == 'locals' else 0
         if recipe['sent_first']:
